@@ -262,6 +262,24 @@ def run_carrier(res, cname, spec, ident):
     outcome2 = "renamed-and-deleted"
     try:
         target = found
+        if hasattr(target, "set_value") and cname in ("variable-set", "user-field-decl", "user-defined"):
+            # changing what the object holds does not change what it is called
+            try:
+                target.set_value("another value")
+            except (ValueError, TypeError):
+                pass
+            else:
+                same = lookup(c, ident_l)
+                # (set_value rebuilds the element's attributes: the planted marker goes with them, the node stays)
+                ok = same is not None and node(same) is node(target) and node(same).get(attr) == ident_l
+                why = "not-found" if same is None else ("wrong-object" if node(same) is not node(target) else f"identifier-differs({node(same).get(attr)!r})")
+                if ok:
+                    mark(target, "target")
+                if not ok:
+                    outcome2 = "lost-after-set_value"
+                    res.violation(f"lookup:{cname}:not-found-after-set_value:{why.split('(')[0]}", {"ident": ident_l, "why": why, "names_now": [node(e).get(attr) for e in node(c.body).iter() if False] or None}, case)
+                    res.cls((cname, charclasses(ident), outcome2), True)
+                    return
         try:
             target.name = absent  # public setter where the class has one (styles, tables, marks, frames ...)
             if node(target).get(attr) != absent:
